@@ -98,6 +98,11 @@ func (s *Store) deleteAndOptionalCloseChild(child string, closeChannel bool) err
 
 		s.ChildrenByParent[parent] = children
 
+		if len(children) == 0 {
+			// do not keep an empty map for every parent ever seen
+			delete(s.ChildrenByParent, parent)
+		}
+
 		delete(s.ParentByChild, child)
 	}
 
